@@ -6,72 +6,46 @@ From Coq Require Import Lqa.
 Local Open Scope Q_scope.
 
 (* the comparison performed at step n of a history *)
-Definition step_ok (k : nat) (ops : list (sop * sobs)) (n : nat) : Prop :=
+Definition step_ok (fr : sobs) (k : nat) (ops : list (sop * sobs)) (n : nat) : Prop :=
   match nth_error ops n with
   | None => True
   | Some (op, o) =>
       let pre := map fst (firstn (S n) ops) in
       exists s xs, nth_error (s_run k pre) (op_target op) = Some s /\
                    nth_error (v_run k pre) (op_target op) = Some xs /\
-                   Inv s xs /\ compare s o = None
+                   Inv s xs /\ compare fr (N.of_nat (S n)) s o = None
   end.
 
-Lemma run_cmp_none_gen : forall ops accs vals idx tag tag',
+Lemma run_cmp_none_gen fr : forall ops accs vals idx tag tag', (0 <= idx)%Z ->
   Forall2 Inv accs vals ->
-  run_cmp accs ops idx tag = (tag', None) ->
+  run_cmp fr accs ops idx tag = (tag', None) ->
   forall n op o, nth_error ops n = Some (op, o) ->
     exists s xs, nth_error (fold_left s_step (map fst (firstn (S n) ops)) accs) (op_target op) = Some s /\
                  nth_error (fold_left v_step (map fst (firstn (S n) ops)) vals) (op_target op) = Some xs /\
-                 Inv s xs /\ compare s o = None.
+                 Inv s xs /\ compare fr (Z.to_N (idx + Z.of_nat (S n))) s o = None.
 Proof.
-  induction ops as [|[op0 o0] ops IH]; intros accs vals idx tag tag' F R n op o Hn; [destruct n; discriminate|].
+  induction ops as [|[op0 o0] ops IH]; intros accs vals idx tag tag' Hi F R n op o Hn; [destruct n; discriminate|].
   cbn [run_cmp] in R.
   pose proof (step_inv accs vals op0 F) as F'.
   destruct (nth_error (s_step accs op0) (op_target op0)) as [s0|] eqn:E0; [|discriminate].
-  destruct (compare s0 o0) as [w|] eqn:C0; [discriminate|].
+  destruct (compare fr (Z.to_N (idx + 1)) s0 o0) as [w|] eqn:C0; [discriminate|].
   destruct n as [|n].
   - cbn in Hn. injection Hn as <- <-. cbn [firstn map fold_left fst].
     destruct (Forall2_nth_error _ _ _ _ _ F' E0) as (xs & Ex & I).
     exists s0, xs. split; [exact E0|split; [exact Ex|split; [exact I|exact C0]]].
-  - cbn in Hn. cbn [firstn map fold_left fst]. exact (IH _ _ _ _ _ F' R n op o Hn).
+  - cbn in Hn. cbn [firstn map fold_left fst].
+    replace (idx + Z.of_nat (S (S n)))%Z with ((idx + 1) + Z.of_nat (S n))%Z by lia.
+    assert (Hi' : (0 <= idx + 1)%Z) by lia.
+    apply (IH _ _ _ _ _ Hi' F' R n op o Hn).
 Qed.
 
 Lemma inv_repeat k : Forall2 Inv (repeat s_init k) (repeat [] k).
 Proof. induction k; cbn; constructor; auto using inv_init. Qed.
 
-Theorem check_ok_sound k ops tag : run_cmp (repeat s_init k) ops 0%Z 0%Z = (tag, None) -> forall n, step_ok k ops n.
+Theorem check_ok_sound fr k ops tag : run_cmp fr (repeat s_init k) ops 0%Z 0%Z = (tag, None) -> forall n, step_ok fr k ops n.
 Proof.
   intros R n. unfold step_ok. destruct (nth_error ops n) as [[op o]|] eqn:E; [|exact I].
-  exact (run_cmp_none_gen ops _ _ _ _ _ (inv_repeat k) R n op o E).
+  pose proof (run_cmp_none_gen fr ops _ _ _ _ _ (Z.le_refl 0) (inv_repeat k) R n op o E) as H.
+  replace (Z.to_N (0 + Z.of_nat (S n))) with (N.of_nat (S n)) in H by lia. exact H.
 Qed.
 
-(* reading one comparison: e.g. the observed mean *)
-Lemma first_false_none l : first_false l = None -> forall b, In b l -> b = true.
-Proof.
-  unfold first_false. generalize 0%Z. induction l as [|x l IH]; intros i H b Hb; [destruct Hb|].
-  destruct x; [|discriminate]. destruct Hb as [<-|Hb]; [reflexivity | exact (IH _ H b Hb)].
-Qed.
-
-Lemma within_sound tol e o : within tol e o = true -> Qabs (o - e) <= tol.
-Proof. unfold within. apply Qle_bool_iff. Qed.
-
-Theorem compare_mean_sound s o xs : Inv s xs -> xs <> [] -> compare s o = None ->
-  exists m, o_mean o = XFin m /\ Qabs (m - mean_def xs) <= tol_mean s.
-Proof.
-  intros I Hx C. unfold compare in C.
-  assert (Hn : (s_count s =? 0)%N = false).
-  { apply N.eqb_neq. rewrite (inv_count _ _ I). destruct xs; [congruence | cbn; lia]. }
-  pose proof (first_false_none _ C) as A.
-  assert (W : (s_count s =? 0)%N || xwithin (tol_mean s) (XFin (s_mean s)) (o_mean o) = true).
-  { apply A. do 4 right. left. reflexivity. }
-  rewrite Hn in W. cbn [orb] in W.
-  destruct (o_mean o) as [| |m]; cbn in W; try discriminate.
-  exists m. split; [reflexivity|]. apply within_sound in W. now rewrite <- (mean_is_batch _ _ I Hx).
-Qed.
-
-Theorem compare_count_sound s o xs : Inv s xs -> compare s o = None -> o_count o = Z.of_nat (length xs).
-Proof.
-  intros I C. unfold compare in C. pose proof (first_false_none _ C) as A.
-  assert (W : (o_count o =? Z.of_N (s_count s))%Z = true) by (apply A; left; reflexivity).
-  apply Z.eqb_eq in W. rewrite W, (inv_count _ _ I). apply nat_N_Z.
-Qed.
